@@ -13,7 +13,7 @@ def obligations(ctx, cfg):
             StepAck(ctx, n, 2, k, 'ack-local', 'C02.b'),
             StepPull(ctx, 2, 2, 0, 'ack-local', 'C02.c-pull'),
             StepPost(ctx, 2, 2, 2, 'ack-local', 'C02.c-post'),
-            _streaming(ctx)]
+            _streaming(ctx), SubscriptionActorHistory(ctx, 'C02.f-history-subscription-actor')]
 
 
 def _streaming(ctx):
